@@ -28,7 +28,7 @@ ASSUMPTIONS = ["an exception raised at a call boundary stands for any failure at
                "temp files are not output files: they may exist under the run's private TMPDIR"]
 REAL_VS_STUB = {"real": ["gen_params, gen_seq, gen_coords end to end, vermouth DeferredFileWriter, real file system"],
                 "stub": ["tqdm disabled", "sys.argv pinned", "sys.settrace crash injector"]}
-PROBES = ["output_path_is_symlink", "publish_across_filesystems", "relative_output_path", "crash_between_open_and_write", "existing_file", "existing_backups", "later_success_other_path",
+PROBES = ["publishing_move_fails_once", "output_path_is_symlink", "publish_across_filesystems", "relative_output_path", "crash_between_open_and_write", "existing_file", "existing_backups", "later_success_other_path",
           "natural_failure", "prog_gen_params", "prog_gen_seq", "prog_gen_coords", "success_backup_checked"]
 EXHAUSTIVE = {}
 
@@ -61,7 +61,8 @@ def _base_op(g, prog, st, verif_seed, index):
         return {"op": "gen_seq", "name": "s", "out": "res/seq.json", "seq": ["A", "B"],
                 "macros": [f"A:{n}:1:RA-1.0", f"B:{g.randint(1, 3)}:{g.randint(1, 2)}:RB-1.0"], "connects": ["0:1:0-0"]}
     job, jst = jobgen.base_job("C20gc", verif_seed, "quick", index, COORD_PROFILE)
-    op = {"op": "gen_coords", "spec": job["spec"], "opts": {"box": job["opts"]["box"]}, "out": "res/out.gro",
+    op = {"op": "gen_coords", "spec": job["spec"], "opts": {"box": job["opts"]["box"]},
+          "out": g.choice(["res/out.gro", "res/out.gro", "res/conf.pdb", "res/CONF.PDB"]),
           "seed": g.getrandbits(16), "stop_at": ["file_writer.py", "write"]}
     r = g.random()
     if r < 0.35:
@@ -312,6 +313,27 @@ def run_job(job):
             for clause, msg, facts in _check_success(job, pre_map, r):
                 if not any(v["clause"] == clause for v in viols):
                     viols.append({"property": PROP, "clause": clause, "msg": "[exdev] " + msg, "seq": 0, "facts": facts})
+    # ---- the publishing move itself fails once (transient OSError): a failure DURING writing is outside the failure
+    # clause ("before writing"), so a failed call is judged only through what later calls publish; a call that returns
+    # normally (e.g. after a retry) must have put the complete file in place
+    if job["prog"] in ("gen_params", "gen_coords", "gen_seq"):
+        res = zygotes.run_history(hs, {"ops": [dict(op, move_fails=True)] + job["follow"], "roundtrip": False}, timeout=300)
+        r = res["ops"][0]
+        evals += 1
+        probes["publishing_move_fails_once"] = 1
+        nt.add(f"{job['prog']}:move_fails:{r['status']}")
+        if r["status"] == "ok":
+            if r.get("out_text") != cal.get("out_text"):
+                viols.append({"property": PROP, "clause": "success.incomplete", "seq": 0, "facts": {"move_fails": True},
+                              "msg": f"{job['prog']} returned normally although the publishing move failed once, and the "
+                                     f"complete file is not at {op['out']}"})
+            for clause, msg, facts in _check_success(job, pre_map, r):
+                if not any(v["clause"] == clause for v in viols):
+                    viols.append({"property": PROP, "clause": clause, "msg": "[move failed once] " + msg, "seq": 0, "facts": facts})
+        else:
+            for clause, msg, facts in _check_failed(job, pre_map, r, res["ops"][1:], "move"):
+                if clause == "later.published" and not any(v["clause"] == clause for v in viols):
+                    viols.append({"property": PROP, "clause": clause, "msg": msg, "seq": 0, "facts": facts})
     if job.get("natural"):
         ff = ffgen.gen_ff(__import__("random").Random(job["run_seed"]))
         bad = histgen.failing_op(__import__("random").Random(job["run_seed"] + 1), ff,
